@@ -14,11 +14,14 @@ import (
 )
 
 type S3DBConn struct {
-	ctx              context.Context
-	ctxCancel        func()
-	deadline         time.Time
-	writeTime        time.Time
-	txFixedWriteTime bool
+	ctx       context.Context
+	ctxCancel func()
+	deadline  time.Time
+	// writeTime is what the user set through s3db_conn, if anything.
+	writeTime time.Time
+	// txWriteTime is the one write time shared by the statements of the
+	// current transaction that run while the user has set none.
+	txWriteTime time.Time
 }
 
 func (sc *S3DBConn) ResetContext() {
@@ -30,8 +33,12 @@ func (sc *S3DBConn) ResetContext() {
 	if !sc.deadline.IsZero() {
 		sc.ctx, sc.ctxCancel = context.WithDeadline(sc.ctx, sc.deadline)
 	}
-	if !sc.writeTime.IsZero() {
-		sc.ctx = writetime.NewContext(sc.ctx, sc.writeTime)
+	wt := sc.writeTime
+	if wt.IsZero() {
+		wt = sc.txWriteTime
+	}
+	if !wt.IsZero() {
+		sc.ctx = writetime.NewContext(sc.ctx, wt)
 	}
 }
 
@@ -326,18 +333,16 @@ func (c *VirtualTable) Delete(value sqlite.Value) error {
 }
 
 func (c *VirtualTable) Begin() error {
-	if c.module.sc.writeTime.IsZero() {
-		c.module.sc.writeTime = time.Now()
-		c.module.sc.txFixedWriteTime = true
+	if c.module.sc.txWriteTime.IsZero() {
+		c.module.sc.txWriteTime = time.Now()
 		c.module.sc.ResetContext()
 	}
 	return toSqlite(c.common.Begin(c.module.sc.ctx))
 }
 
 func (c *VirtualTable) Commit() error {
-	if c.module.sc.txFixedWriteTime {
-		c.module.sc.writeTime = time.Time{}
-		c.module.sc.txFixedWriteTime = false
+	if !c.module.sc.txWriteTime.IsZero() {
+		c.module.sc.txWriteTime = time.Time{}
 		c.module.sc.ResetContext()
 	}
 	return nil
@@ -353,9 +358,8 @@ func (c *VirtualTable) Sync() error {
 
 func (c *VirtualTable) Rollback() error {
 	res := toSqlite(c.common.Rollback())
-	if c.module.sc.txFixedWriteTime {
-		c.module.sc.writeTime = time.Time{}
-		c.module.sc.txFixedWriteTime = false
+	if !c.module.sc.txWriteTime.IsZero() {
+		c.module.sc.txWriteTime = time.Time{}
 		c.module.sc.ResetContext()
 	}
 	return res
